@@ -11,7 +11,7 @@ def main(tier):
     chk = Check('C12', LEVEL, tier)
     for q in c12.FUNCS:
         chk.function_under_contract(q)
-    res = run_programs('contracts.c12', c12.PROGRAMS, timeout_ms=30000 if tier == 'quick' else 120000)
+    res = run_programs('contracts.c12', c12.programs(tier), timeout_ms=30000 if tier == 'quick' else 120000)
     absorb(chk, res, c12.replay, prefix='C12/')
     if os.path.exists(os.path.join(VERIF, 'bounded', 'c12_location.py')):
         b = run_bounded_script('c12_location.py', [tier, chk.seed], timeout=900 if tier == 'quick' else 3400)
